@@ -31,6 +31,7 @@ RULE = (
     "multisets over {1,4,12} with 1..3 senders x pipe capacity {1,3,10} x peer scripts {reads all | reads in steps of 1/3 | resets | "
     "closes | stops reading} x cancellation of each sender, all placed at loop-iteration boundaries (busy placements bounded: 3 quick / "
     "4 thorough); (c) datagram endpoint and listener with 0..2 EAGAIN answers, writable-again / error / close / cancel placements; "
+    "(d) a connection dead on the write side only (EPIPE / ECONNRESET answered to send(), nothing readable) with one task sending 8 times in a tight loop: a connection error within 3 sends; "
     "states = distinct canonical WriteFlowControl states + distinct adapter observation states; distinct_nontrivial = distinct "
     "(scenario, outcome vector) observations among executions where at least one sender was suspended"
 )
@@ -558,13 +559,80 @@ def run_dgram_job(job: dict, res: JobResult) -> None:
         res.samples.append({"part": "datagram", **{k: job[k] for k in ("obj", "senders", "eagain", "env")}})
 
 
+# ---------------------------------------------------------------------------------------------------------
+# (d) a connection that died on the WRITE side only (EPIPE / ECONNRESET answered to send(), nothing readable): the transport notices it
+# inside write(); a sender that keeps sending in a tight loop must get a connection error, not an endless series of successes
+
+
+def run_dead(cfg: dict) -> dict:
+    world = World(Ctx(), horizon=900)
+    sock = world.stream_socket(tx_cap=cfg["cap"])
+    err = {"EPIPE": BrokenPipeError(errno.EPIPE, "Broken pipe"), "ECONNRESET": ConnectionResetError(errno.ECONNRESET, "reset")}[cfg["errno"]]
+    out: dict[str, Any] = {"results": []}
+
+    async def main(loop: Any) -> None:
+        tr = await AsyncIOBackend().wrap_stream_socket(sock)
+        for k in range(cfg["good"]):
+            await tr.send_all(b"x")  # healthy sends first (the pipe is drained at once)
+            del sock.tx.q[:]
+        sock.tx.error = err
+        for k in range(8):
+            try:
+                if cfg["api"] == "send_all":
+                    await tr.send_all(b"A" * cfg["size"])
+                else:
+                    await tr.send_all_from_iterable(iter([b"A", b"", b"A" * (cfg["size"] - 1)]))
+                out["results"].append("ok")
+            except OSError as exc:
+                out["results"].append("oserror:" + type(exc).__name__)
+                break
+
+    status, value, _loop = vloop.run(world, main)
+    out["status"] = status
+    out["value"] = repr(value)[:160] if status != "ok" else None
+    out["iterations"] = getattr(_loop, "iterations", None)
+    return out
+
+
+def oracle_dead(cfg: dict, obs: dict) -> str | None:
+    if obs["status"] != "ok":
+        return "dead-connection-run-" + obs["status"]
+    r = obs["results"]
+    if not r or not r[-1].startswith("oserror"):
+        return "sends-on-a-dead-connection-keep-succeeding"
+    if len(r) > 3:
+        return "connection-error-reported-only-after-several-lost-sends"
+    return None
+
+
+def run_dead_job(res: JobResult) -> None:
+    for api in ("send_all", "iter"):
+        for e in ("EPIPE", "ECONNRESET"):
+            for size in (1, 12):
+                for cap in (3, 64):
+                    for good in (0, 1):
+                        cfg = {"api": api, "errno": e, "size": size, "cap": cap, "good": good}
+                        obs = run_dead(cfg)
+                        res.evaluations += 1
+                        bad = oracle_dead(cfg, obs)
+                        res.outcome("dead-connection-ok" if bad is None else "VIOLATION:" + bad)
+                        res.nontrivial.add(digest(("dead", api, e, size, cap, good, tuple(obs["results"]))))
+                        key = f"stream/{api}/{bad}"
+                        if bad and not any(v.key == key for v in res.violations):
+                            res.violations.append(Violation(key, f"{cfg}: results of the consecutive sends {obs['results']} status={obs['status']} {obs['value']}",
+                                                            {"part": "dead", "cfg": cfg, "choices": []}))
+    res.samples.append({"part": "write-side connection loss, sender in a tight loop"})
+
+
 def jobs(tier: str) -> list[dict]:
-    return [{"part": "wfc", "tier": tier}] + stream_jobs(tier) + dgram_jobs(tier)
+    return [{"part": "wfc", "tier": tier}, {"part": "dead", "tier": tier}] + stream_jobs(tier) + dgram_jobs(tier)
 
 
 def run_job(job: dict) -> JobResult:
     res = JobResult()
-    if job["part"] == "wfc":
+    if job["part"] == "dead":
+        run_dead_job(res)
+    elif job["part"] == "wfc":
         run_wfc(res, MAX_DRAINS if job["tier"] == "quick" else MAX_DRAINS + 1)
     elif job["part"] == "stream":
         run_stream_job(job, res)
@@ -579,6 +647,10 @@ def replay(doc: dict) -> tuple[bool, str]:
         st = wfc_build(tuple(rp["history"]))
         bad = wfc_invariant(tuple(rp["history"]), st)
         return bad is not None, f"history={rp['history']}\nstate={st['canon']}\ninvariant: {bad}"
+    if rp["part"] == "dead":
+        obs = run_dead(rp["cfg"])
+        bad = oracle_dead(rp["cfg"], obs)
+        return bad is not None, f"cfg={rp['cfg']}\nresults={obs['results']} status={obs['status']} {obs['value']}\noracle: {bad}"
     ctx = Ctx(rp["choices"])
     if rp["part"] == "stream":
         obs = run_stream(ctx, rp["cfg"])
